@@ -173,6 +173,11 @@ def ser_result(fn):
 
 def _ob_key(x):
     """An object as plain data, independent of the library's own `==` on objects/types."""
+    if type(x).__name__ in ("Over", "Under") and hasattr(x, "left") and hasattr(x, "right"):
+        # biclosed slash types: an object that is itself a type built from two types
+        return (type(x).__name__,
+                None if x.left is None else tuple(ty_key(x.left)),
+                None if x.right is None else tuple(ty_key(x.right)))
     if hasattr(x, "name"):
         return (x.name, getattr(x, "z", 0))
     return x
@@ -199,7 +204,7 @@ def wf_failure(d):
                 return "offset %r of box %d out of range" % (off, k)
             if scan[off:off + len(bdom)] != bdom:
                 return "box %d does not find its domain at its offset" % k
-            if not (lbox == box and ty_key(lbox.dom) == bdom and ty_key(lbox.cod) == bcod
+            if not ((lbox is box or lbox == box) and ty_key(lbox.dom) == bdom and ty_key(lbox.cod) == bcod
                     and ty_key(left) == scan[:off] and ty_key(right) == scan[off + len(bdom):]):
                 return "layer %d disagrees with boxes/offsets" % k
             scan = scan[:off] + bcod + scan[off + len(bdom):]
